@@ -184,7 +184,8 @@ theorem gen_fold (input : List Char) (hascii : ∀ c ∈ input, c.toNat < 128) :
             { sb := st.sb ++ [c.toNat], upperCount := st.upperCount, i := st.i + 1 } := by
           unfold Gen.Str.ToSnakeCase_body
           simp only [gen_isUppercase, hU', Bool.false_eq_true, if_false, gen_isLowercase, hL', hmod]
-          split <;> rfl
+          -- the code may or may not distinguish digits from other characters here: both branches write the byte
+          all_goals (first | rfl | (split <;> rfl))
         rw [hbody, ih (pre ++ [c]) _ hin' (by simp [hi])]
         have hgo : Snake.go (decide (st.i = 0)) (decide (st.upperCount > 0)) (c :: r) =
             c :: Snake.go false (decide (st.upperCount > 0)) r := by
